@@ -3,6 +3,8 @@
    operations and `sync` print `<effective writes>#<cell dump>#<store dump>`. -/
 import TmVerif.Base.Proto
 import TmVerif.Master.Model
+import TmVerif.Master.SrvState
+import TmVerif.Master.LoaderDecode
 open TmVerif TmVerif.Proto TmVerif.Sched TmVerif.Master
 
 def sortNats (l : List Nat) : List Nat := (l.toArray.qsort (· < ·)).toList
@@ -224,4 +226,104 @@ def stepLine (s : DSt) (ws : List String) : DSt × String :=
           | .error e => ({ s with dead := true }, "abort:" ++ e)
         | none => (s, "bad-op")
 
-def main : IO Unit := run stepLine {}
+/-! Function-level lines of the server-state layer (`TmVerif.SrvState`): stateless, the harness sends the
+    inputs it captured at the call boundary of the real method and compares the result.
+      fadj <state> <since> <recstate|-> <recsince> <present 0|1> <now>          -> <state> <since> <rec|->
+      fevt <state> <since> <req> <onSrv csv> <apps csv> <now>                    -> <state> <since> marked=<csv> rec=<st>:<since>
+      fpres <id:state csv> <present ids csv>                                     -> down=<csv> up=<csv>
+      fpend <app:srv:since csv> <app:run:srv:state csv (srv - = none)> <now>     -> pend=<csv> overdue=<srv:app csv> -/
+namespace SrvLines
+open TmVerif.SrvState
+
+def pS (s : String) : Option S :=
+  if s = "up" then some .up else if s = "down" then some .down else if s = "frozen" then some .frozen else none
+def shS : S → String | .up => "up" | .down => "down" | .frozen => "frozen"
+def pReq (s : String) : Req :=
+  if s = "up" then .up else if s = "down" then .down else if s = "frozen" then .frozen else .other
+def shRec : Rec → String | none => "-" | some (st, t) => s!"{shS st}:{t}"
+
+def line (ws : List String) : Option String :=
+  match ws with
+  | ["fadj", st, since, rst, rsince, pres, now] => do
+    let s : SrvState.Srv := { state := ← pS st, since := ← since.toInt? }
+    let rec : Rec ← (if rst = "-" then some none else do pure (some (← pS rst, ← rsince.toInt?)))
+    let r := adjust s rec (← bool? pres) (← now.toInt?)
+    pure s!"{shS r.1.state} {r.1.since} {shRec r.2}"
+  | ["fevt", st, since, req, onSrv, apps, now] => do
+    let s : SrvState.Srv := { state := ← pS st, since := ← since.toInt? }
+    let r := stateEvent s (← natList? onSrv) (pReq req) (← natList? apps) (← now.toInt?)
+    pure s!"{shS r.1.state} {r.1.since} marked={showNats (sortNats r.2.1)} rec={shRec (some r.2.2)}"
+  | ["fpres", servers, present] => do
+    let sv ← (csv servers).mapM (fun t => match t.splitOn ":" with
+      | [i, st] => do pure ((← i.toNat?), (← pS st))
+      | _ => none)
+    let pr ← natList? present
+    let r := presencePlan sv (fun n => pr.contains n)
+    pure s!"down={showNats (sortNats r.1)} up={showNats (sortNats r.2)}"
+  | ["fpend", pend, apps, now] => do
+    let pd ← (csv pend).mapM (fun t => match t.splitOn ":" with
+      | [a, sv, t0] => do pure ({ app := ← a.toNat?, srv := ← sv.toNat?, since := ← t0.toInt? } : Pend)
+      | _ => none)
+    let ap ← (csv apps).mapM (fun t => match t.splitOn ":" with
+      | [a, run, sv, st] => do
+        let srv : Option (Nat × S) ← (if sv = "-" then some none else do pure (some (← sv.toNat?, ← pS st)))
+        pure ((← a.toNat?), (← bool? run), srv)
+      | _ => none)
+    let r := checkPending pd ap (← now.toInt?)
+    let ps := (r.1.toArray.qsort (fun a b => a.app < b.app)).toList.map (fun q => s!"{q.app}:{q.srv}:{q.since}")
+    let ov := (r.2.toArray.qsort (fun a b => a.1 < b.1 || (a.1 == b.1 && a.2 < b.2))).toList.map (fun q => s!"{q.1}:{q.2}")
+    pure s!"pend={showCsv ps} overdue={showCsv ov}"
+  | _ => none
+end SrvLines
+
+/-! Function-level lines of the loader's decode step (`TmVerif.LoaderDecode`); strings are dot-separated
+    code points, `-` = empty, `~` = absent.
+      fapp <assigned prio> <manifest prio|~> <lease|~> <retention|~>   -> <prio> <lease|E> <retention|-|E>
+      fbkt <name> <level|~>                                            -> <level>
+      fsrv <partition|~>                                               -> <label>
+      fidg <existing ids csv> <stored id:(e|n|<count>) csv>            -> rm=<csv> cfg=<id:count csv> -/
+namespace DecodeLines
+open TmVerif.LoaderDecode TmVerif.Units
+
+def dStr (s : String) : Option (List Char) :=
+  if s = "-" then some [] else (s.splitOn ".").mapM (fun t => t.toNat?.map Char.ofNat)
+def dOpt (s : String) : Option (Option (List Char)) :=
+  if s = "~" then some none else (dStr s).map some
+def eStr (s : List Char) : String :=
+  if s.isEmpty then "-" else String.intercalate "." (s.map (fun c => toString c.toNat))
+
+def line (ws : List String) : Option String :=
+  match ws with
+  | ["fapp", asg, mp, lease, ret] => do
+    let m : Option Int ← (if mp = "~" then some none else do pure (some (← mp.toInt?)))
+    let p := appPriority (← asg.toInt?) m
+    let l := match appLease (← dOpt lease) with | .ok v => toString v | .error _ => "E"
+    let r := match appRetention (← dOpt ret) with
+      | .ok (some v) => toString v | .ok none => "-" | .error _ => "E"
+    pure s!"{p} {l} {r}"
+  | ["fbkt", name, lvl] => do pure (eStr (bucketLevel (← dStr name) (← dOpt lvl)))
+  | ["fsrv", part] => do pure (eStr (serverLabel (← dOpt part)))
+  | ["fidg", existing, stored] => do
+    let st ← (csv stored).mapM (fun t => match t.splitOn ":" with
+      | [g, d] => do
+        let dd : Option (Option Nat) ← (if d = "e" then some none else if d = "n" then some (some none)
+                                         else do pure (some (some (← d.toNat?))))
+        pure ((← g.toNat?), dd)
+      | _ => none)
+    let r := groupPlan (← natList? existing) st
+    let cfg := (r.2.toArray.qsort (fun a b => a.1 < b.1)).toList.map (fun q => s!"{q.1}:{q.2}")
+    pure s!"rm={showNats (sortNats r.1)} cfg={showCsv cfg}"
+  | _ => none
+end DecodeLines
+
+def stepLine' (s : DSt) (ws : List String) : DSt × String :=
+  match ws with
+  | w :: _ =>
+    if w = "fadj" || w = "fevt" || w = "fpres" || w = "fpend" then
+      (s, (SrvLines.line ws).getD "bad-op")
+    else if w = "fapp" || w = "fbkt" || w = "fsrv" || w = "fidg" then
+      (s, (DecodeLines.line ws).getD "bad-op")
+    else stepLine s ws
+  | [] => stepLine s ws
+
+def main : IO Unit := run stepLine' {}
